@@ -118,8 +118,10 @@ impl Lfsr {
         }
     }
     /// Clock the LFSR.
+    ///
+    /// Only the low bit of the input is used. The input comes straight off
+    /// the stream, so it must not be trusted to be 0 or 1.
     fn next(&mut self, i: u8) -> u8 {
-        assert!(i <= 1);
         let i = i & 1;
         let ret = 1 & (i ^ self.shift_reg as u8);
         self.shift_reg = (self.shift_reg >> 1) ^ (self.mask * i as u64);
